@@ -27,6 +27,19 @@ Proof. unfold take, len. intros. apply firstn_all2. lia. Qed.
 Lemma drop_all {A} n (l : list A) : len l <= n -> drop n l = [].
 Proof. unfold drop, len. intros. apply skipn_all2. lia. Qed.
 
+Lemma take_min {A} n (l : list A) : take (N.min n (len l)) l = take n l.
+Proof.
+  destruct (N.le_gt_cases n (len l)) as [H|H].
+  - rewrite N.min_l by exact H. reflexivity.
+  - rewrite N.min_r by lia. rewrite !take_all by lia. reflexivity.
+Qed.
+Lemma drop_min {A} n (l : list A) : drop (N.min n (len l)) l = drop n l.
+Proof.
+  destruct (N.le_gt_cases n (len l)) as [H|H].
+  - rewrite N.min_l by exact H. reflexivity.
+  - rewrite N.min_r by lia. rewrite !drop_all by lia. reflexivity.
+Qed.
+
 Lemma take_0 {A} (l : list A) : take 0 l = [].
 Proof. reflexivity. Qed.
 Lemma drop_0 {A} (l : list A) : drop 0 l = l.
